@@ -41,6 +41,9 @@ RULE = (
     "layer / ratio > 1 on a non-uniform or embedded grid; distinct by inputs"
 )
 ASSUMPTIONS = [
+    "dtype letters: layer vectors with integer entries are passed to extrude_grid / "
+    "extrude_mdg both as float and as integer-dtype arrays, on sources placed at "
+    "non-integer coordinates; both calls are judged by the same oracles",
     "purity: refine_grid_1d, remesh_1d, refine_triangle_grid, structured_refinement and "
     "extrude_grid must leave their argument grids bitwise unchanged (geometry computed "
     "beforehand; extrude_grid documents that it recomputes the geometry of its argument, "
@@ -160,6 +163,7 @@ def cases(tier):
         out.append({"fam": "structured", "pair": ["stet", n], "motion": None, "ks": [2]})
     # extrusion
     zs = Z_QUICK if tier == "quick" else Z_THOROUGH
+    out.append({"fam": "extrude_mdg", "zs": zs})
     for sc in [None] + G.SCALES:
         out.append({"fam": "extrude", "src": ["point"], "rotz": False, "zs": zs, "scale": sc})
         for src in one_d:
@@ -503,7 +507,7 @@ def _extrude_source(case):
 
     src = case["src"]
     if src[0] == "point":
-        g = pp.PointGrid(np.array([1.0, 2.0, 0.0]))
+        g = pp.PointGrid(np.array([0.5, 0.25, 0.0]))  # non-integer: integer-dtype z must not truncate
         g.compute_geometry()
         return g, "point", None, True
     if src[0] == "1d":
@@ -524,7 +528,12 @@ def _run_extrude(case, out):
     from porepy.grids.grid_extrusion import extrude_grid
 
     sc = case.get("scale")
-    for z in case["zs"]:
+    zs = [(z, float) for z in case["zs"]]
+    if sc is None:
+        # dtype letters: layer vectors with integer entries are also passed as integer
+        # arrays (np.array([0, 1, 2])); the result must be the same grid
+        zs += [(z, int) for z in case["zs"] if all(float(v).is_integer() for v in z)]
+    for z, zdtype in zs:
         g, label, measure, convex = _extrude_source(case)
         z = np.array(z, float)
         if sc is not None:
@@ -536,7 +545,7 @@ def _run_extrude(case, out):
                 measure *= float(sc) ** g.dim
             z = float(sc) * z
             label += f"*{sc:g}"
-        detail = {"grid": label, "src": case["src"], "z": z, "scale": sc}
+        detail = {"grid": label, "src": case["src"], "z": z, "z_dtype": zdtype.__name__, "scale": sc}
         if g.dim > 0:
             _quiet(g.compute_geometry)
         if measure is None:
@@ -551,7 +560,7 @@ def _run_extrude(case, out):
             # documented: "both the original and the new grid will have their geometry
             # computed" -> the five geometry fields may be rewritten (round-off level)
             with G.Pure(out, "extrude_grid", [g], allow=G.GEOM_FIELDS, **detail) as pure:
-                h, cmap, fmap = _quiet(extrude_grid, g, z.copy())
+                h, cmap, fmap = _quiet(extrude_grid, g, z.astype(zdtype))
         except Exception as e:
             out.violate("extrude_grid raised", error=repr(e), **detail)
             out.ev("VIOLATION")
@@ -648,9 +657,55 @@ def _run_extrude(case, out):
             out.ev("VIOLATION")
         else:
             direction = "neg" if np.all(z <= 0) and np.any(z < 0) else "pos"
-            out.ev(f"extrude/{g.dim}d->{h.dim}d/{direction}/L{min(nl, 2)}{'+' if nl > 2 else ''}/{case['src'][0]}" + ("" if sc is None else "/scaled"), ("ex", label, tuple(z.tolist())) if (nc > 1 or nl > 1) else None)
+            out.ev(f"extrude/{g.dim}d->{h.dim}d/{direction}/L{min(nl, 2)}{'+' if nl > 2 else ''}/{case['src'][0]}" + ("" if sc is None else "/scaled") + ("/int-z" if zdtype is int else ""), ("ex", label, tuple(z.tolist()), zdtype.__name__) if (nc > 1 or nl > 1) else None)
     if not out.samples:
         out.samples.append({"family": "extrude", "src": case["src"], "layer_vectors": case["zs"]})
+
+
+def _run_extrude_mdg(case, out):
+    """extrude_mdg on a fractured 2-d md-grid (2-d, two 1-d, one 0-d subdomain) placed at
+    non-integer coordinates, with float and with integer-dtype layer vectors."""
+    import porepy as pp
+    from porepy.grids.grid_extrusion import extrude_mdg
+
+    fr = [np.array([[0.75, 2.25], [1.5, 1.5]]), np.array([[1.5, 1.5], [0.75, 2.25]])]
+    for z in case["zs"]:
+        dts = [float] + ([int] if all(float(v).is_integer() for v in z) else [])
+        for dt in dts:
+            detail = {"z": z, "z_dtype": dt.__name__}
+            try:
+                mdg = _quiet(pp.meshing.cart_grid, fr, np.array([4, 4]), physdims=np.array([3.0, 3.0]))
+                _quiet(mdg.compute_geometry)
+                olds = {sd: (sd.dim, sd.cell_volumes.copy(), (sd.nodes[:2].copy() if sd.dim > 0 else sd.cell_centers[:2].copy())) for sd in mdg.subdomains()}
+                mdg_new, gmap = _quiet(extrude_mdg, mdg, np.array(z, dtype=dt))
+            except Exception as e:
+                out.violate("extrude_mdg raised", error=repr(e), **detail)
+                out.ev("VIOLATION")
+                continue
+            height = abs(float(z[-1]) - float(z[0]))
+            bad = None
+            for sd, (dim, vol, xy) in olds.items():
+                h = gmap[sd].grid
+                ext = _size(h)
+                if h.dim != dim + 1:
+                    bad = f"subdomain of dimension {dim} became dimension {h.dim}"
+                elif abs(h.cell_volumes.sum() - vol.sum() * height) > TOL * ext ** h.dim:
+                    bad = f"{dim}-d subdomain: measure {h.cell_volumes.sum()} != {vol.sum()} x {height}"
+                else:
+                    old_xy = {(float(a), float(b)) for a, b in xy.T}
+                    new_xy = {(float(a), float(b)) for a, b in h.nodes[:2].T}
+                    if old_xy != new_xy:
+                        bad = f"{dim}-d subdomain: the extruded nodes are not above the original nodes"
+                    elif not (abs(h.nodes[2].min() - min(z)) <= TOL * ext and abs(h.nodes[2].max() - max(z)) <= TOL * ext):
+                        bad = f"{dim}-d subdomain: z-range of the extruded grid differs from the layer vector"
+                if bad:
+                    break
+            if bad:
+                out.violate("extrude_mdg: " + bad, **detail)
+                out.ev("VIOLATION")
+            else:
+                out.ev(f"extrude_mdg/{dt.__name__}-z/L{len(z) - 1}", ("xm", tuple(z), dt.__name__))
+    out.samples.append({"family": "extrude_mdg", "layer_vectors": case["zs"]})
 
 
 def run_case(case) -> Outcome:
@@ -661,6 +716,7 @@ def run_case(case) -> Outcome:
         "refinetri": _run_refinetri,
         "structured": _run_structured,
         "extrude": _run_extrude,
+        "extrude_mdg": _run_extrude_mdg,
     }[case["fam"]](case, out)
     return out
 
